@@ -119,9 +119,187 @@ def run_sequence(launcher, ex, pcs):
     return recs, ex_live
 
 
+def _fn_value(i):
+    return i
+
+
+def _fn_cwd(i):
+    import os as _os
+
+    return _os.path.realpath(_os.getcwd())
+
+
+class _DummyProc:
+    def poll(self):
+        return 0
+
+
+def gen_file_history(rng, dirs):
+    """One interpreter history in file mode: 2-3 FileExecutors one after the other, each with its own executor-level dictionary,
+    each given 2-4 calls; a call has no per-call dictionary at all (the shared default of submit()), an empty one, or some keys."""
+    execs = []
+    for _ in range(rng.choice([2, 2, 3])):
+        ex = {}
+        if rng.random() < 0.6:
+            ex["cores"] = rng.choice([1, 2, 3])
+        if rng.random() < 0.7:
+            ex["cwd"] = rng.choice([None] + dirs)
+        if rng.random() < 0.3:
+            ex["threads_per_core"] = rng.choice([1, 2])
+        if rng.random() < 0.2:
+            ex["openmpi_oversubscribe"] = rng.random() < 0.5
+        pcs = []
+        for _ in range(rng.choice([2, 3, 4])):
+            r = rng.random()
+            if r < 0.45:
+                pcs.append(None)              # submit(fn, i): the default dictionary of submit()
+            elif r < 0.55:
+                pcs.append({})
+            else:
+                pc = {}
+                if rng.random() < 0.5:
+                    pc["cores"] = rng.choice([1, 2, 4])
+                if rng.random() < 0.6:
+                    pc["cwd"] = rng.choice([None] + dirs)
+                if rng.random() < 0.25:
+                    pc["threads_per_core"] = rng.choice([1, 3])
+                if rng.random() < 0.15:
+                    pc["gpus_per_core"] = rng.choice([0, 1])
+                pcs.append(pc)
+        execs.append({"ex": ex, "pcs": pcs})
+    return execs
+
+
+def run_file_history(history, base, real=False):
+    """The real FileExecutor on the history; execute_function records (and, with real=True, launches).  -> per executor records."""
+    from executorlib.base.executor import ExecutorBase
+    from executorlib.cache.executor import FileExecutor
+    from executorlib.cache.subprocess_spawner import execute_in_subprocess
+
+    out = []
+    counter = [0]
+    for k, e in enumerate(history):
+        cache = os.path.join(base, "cache_%d" % k)
+        calls = []
+
+        def rec_fn(command, task_dependent_lst=[], file_name=None, resource_dict=None, config_directory=None, backend=None,
+                   cache_directory=None, _calls=calls):
+            _calls.append({"argv": list(command), "rd": copy.deepcopy(resource_dict), "file": file_name, "cache_directory": cache_directory})
+            if real:
+                return execute_in_subprocess(command=command, task_dependent_lst=task_dependent_lst, file_name=file_name,
+                                             resource_dict=resource_dict, cache_directory=cache_directory)
+            return _DummyProc()
+
+        ex_live = copy.deepcopy(e["ex"])
+        pcs_live = [copy.deepcopy(pc) for pc in e["pcs"]]
+        exe = FileExecutor(cache_directory=cache, resource_dict=ex_live, execute_function=rec_fn)
+        futs = []
+        try:
+            for pc in pcs_live:
+                counter[0] += 1
+                fn = _fn_cwd if real else _fn_value
+                futs.append(exe.submit(fn, counter[0]) if pc is None else exe.submit(fn, counter[0], resource_dict=pc))
+            values = None
+            if real:
+                values = []
+                for f in futs:
+                    try:
+                        values.append(f.result(timeout=90))
+                    except BaseException as ex_:  # noqa
+                        values.append("%s: %s" % (type(ex_).__name__, ex_))
+        finally:
+            exe.shutdown(wait=True)
+        out.append({"calls": calls, "ex_after": ex_live, "pcs_after": pcs_live, "cache": os.path.abspath(cache), "values": values,
+                    "submit_default": copy.deepcopy(ExecutorBase.submit.__kwdefaults__.get("resource_dict"))})
+    return out
+
+
+def file_mode_part(ctx: Ctx, only=None):
+    """File mode (execute_tasks_h5): the dictionary handed to execute_function for every task of every executor of a history
+    = Res.fileEffective (theorems file_precedence, file_frame, file_launch_exact); nobody's dictionary is written."""
+    import executorlib
+
+    m = ctx.model
+    py = sys.executable
+    bdir = os.path.join(os.path.dirname(executorlib.__file__), "backend")
+    serial, parallel = os.path.join(bdir, "cache_serial.py"), os.path.join(bdir, "cache_parallel.py")
+    base = tempfile.mkdtemp(prefix="vh_c10f_")
+    dirs = [os.path.join(base, "w%d" % i) for i in range(3)]
+    for d in dirs:
+        os.makedirs(d)
+    n = 25 if ctx.tier == "quick" else 250
+    diffs = []
+    try:
+        if only is not None:
+            histories = [(only["history"], only.get("real", False))]
+        else:
+            # the three-executor witness: dict-less calls after an executor with another working directory
+            histories = [([{"ex": {"cwd": dirs[0]}, "pcs": [None]}, {"ex": {"cwd": dirs[1]}, "pcs": [None, {}]},
+                           {"ex": {"cores": 2}, "pcs": [None, {"cwd": dirs[2]}, None]}], True)]
+            histories += [(gen_file_history(ctx.rng, dirs), i % 12 == 11) for i in range(n)]
+        for hist, real in histories:
+            if real:
+                hist = [{"ex": {k: v for k, v in e["ex"].items() if k in ("cwd",)},
+                         "pcs": [None if pc is None else {k: v for k, v in pc.items() if k in ("cwd",)} for pc in e["pcs"]]} for e in hist]
+            recs = run_file_history(hist, tempfile.mkdtemp(prefix="h_", dir=base), real=real)
+            ctx.case({"file_history": hist, "real": real}, nontrivial=any(pc is None for e in hist for pc in e["pcs"]))
+            ctx.count("file.history_real" if real else "file.history_recorded")
+            mos = m.ask_many([dict(op="res_file_dispatch", ex=e["ex"], pcs=[pc or {} for pc in e["pcs"]], python=py, serial=serial,
+                                   parallel=parallel, file="FILE", cache_directory=r["cache"]) for e, r in zip(hist, recs)])
+            for k, (e, r, mo) in enumerate(zip(hist, recs, mos)):
+                problem = None
+                if r["submit_default"] != {}:
+                    problem = {"kind": "default_dictionary_of_submit_written", "impl": r["submit_default"], "model": {}}
+                elif r["ex_after"] != mo["ex_after"]:
+                    problem = {"kind": "executor_level_dict", "impl": r["ex_after"], "model": mo["ex_after"]}
+                elif [pc or {} for pc in r["pcs_after"]] != mo["pcs_after"]:
+                    problem = {"kind": "callers_dictionary_written", "impl": r["pcs_after"], "model": mo["pcs_after"]}
+                elif len(r["calls"]) != len(mo["calls"]):
+                    problem = {"kind": "number_of_launches", "impl": len(r["calls"]), "model": len(mo["calls"])}
+                else:
+                    for i, (c, mc) in enumerate(zip(r["calls"], mo["calls"])):
+                        ctx.count("file.task")
+                        for key in (e["pcs"][i] or {}):
+                            ctx.count("file.percall." + key)
+                        if e["pcs"][i] is None:
+                            ctx.count("file.percall.<default dict>")
+                        f = c["file"] or ""
+                        argv = ["FILE" if t == f else t for t in c["argv"]]
+                        file_ok = os.path.dirname(f) == r["cache"] and f.endswith(".h5in")
+                        impl = {"rd": {kk: v for kk, v in (c["rd"] or {}).items() if kk in KEYS}, "argv": argv,
+                                "cwd": (c["rd"] or {}).get("cwd", c["cache_directory"])}
+                        extra_keys = sorted(kk for kk in (c["rd"] or {}) if kk not in KEYS)
+                        if impl != mc or extra_keys or not file_ok:
+                            problem = {"kind": "task_%d_of_executor_%d" % (i, k), "impl": impl, "model": mc, "other_keys": extra_keys, "file": f}
+                            break
+                        if real:
+                            want = os.path.realpath(mc["cwd"] or os.getcwd())
+                            if r["values"][i] != want:
+                                problem = {"kind": "real_cwd_task_%d_of_executor_%d" % (i, k), "impl": r["values"][i], "model": want}
+                                break
+                if problem:
+                    diffs.append({"history": hist, "real": real, "executor": k, **problem})
+                    break
+    finally:
+        import shutil
+
+        shutil.rmtree(base, ignore_errors=True)
+    ctx.oblige("correspondence (file mode): resource_dict / command / cwd handed to execute_function for every task of every executor of a "
+               "history = Res.fileEffective / fileLaunch; executor-level, per-call and default dictionaries unchanged", not diffs,
+               f"{len(histories)} histories")
+    for d in diffs[:1]:
+        ctx.violation({"kind": "file_" + d["kind"].split("_of_")[0], "failing_input": True},
+                      {"what": "file mode: the resources a task is started with differ from its own resource_dict over the executor-level one "
+                               "(Res.fileEffective; theorems file_precedence, file_frame, file_launch_exact), or a dictionary of the caller / of "
+                               "another call was written", "mode": "file", **d})
+    return {"file_histories": len(histories), "file_differences": len(diffs)}
+
+
 def body(ctx: Ctx):
     if ctx.replay_file:
         data = json.load(open(ctx.replay_file))
+        if data.get("mode") == "file":
+            return file_mode_part(ctx, only=data)
         cases = [data["case"]]
     else:
         cases = None
@@ -248,8 +426,13 @@ def body(ctx: Ctx):
         ctx.oblige("real launches: os.getcwd() inside each call = its own cwd, else the executor-level cwd", not bad)
         if bad:
             ctx.violation({"kind": "real_cwd", "failing_input": True}, {"what": "working directory of a call differs from its effective cwd", "cases": bad})
+    file_res = file_mode_part(ctx) if not ctx.replay_file else {}
     return {
-        "rule": "sequences of 2-6 per-call dictionaries over one executor-level dictionary (keys cores, threads_per_core, gpus_per_core, cwd, "
+        **file_res,
+        "rule": "file mode: histories of 2-3 FileExecutors in one interpreter (executor-level cores / cwd / threads / oversubscription), 2-4 tasks "
+                "each without per-call dictionary (the shared default of submit()), with an empty one or with own keys, execute_function recorded "
+                "(every 12th history launched for real, os.getcwd() compared); interactive mode: "
+                "sequences of 2-6 per-call dictionaries over one executor-level dictionary (keys cores, threads_per_core, gpus_per_core, cwd, "
                 "openmpi_oversubscribe, slurm_cmd_args; local and srun spawners; every 25th sequence uses keys the local spawner rejects), run "
                 "through the real _submit_function_to_separate_process -> execute_parallel_tasks -> Spawner -> Popen (recorded); plus block "
                 "executors rejecting per-call dicts and real per-call launches with distinct working directories; non-trivial = some per-call key",
